@@ -114,5 +114,5 @@ V_ENSURES(V_RET == 0 && g.pipe_len == 0)                                        
 V_ENSURES(V_IMP(key != NULL && g_mod->state == M_MOD_RUNNING, g.enq_calls == g_e0 + g_P0 && g.unref_calls == g_u0
                 && g.cb_calls == g_cb0 + 1 && __CPROVER_pointer_equals(g.cb_mod, g_mod) && __CPROVER_pointer_equals(g.cb_q, g.qnew_ret) && g.cb_qlen == g_P0))                                /*@C02.pending-messages-delivered-at-loop-stop-in-one-invocation*/
 /* module stopping, or not RUNNING when the loop ends: every pending message is discarded, each released exactly once, none delivered */
-V_ENSURES(V_IMP(key == NULL || g_mod->state != M_MOD_RUNNING, g.unref_calls == g_u0 + g_P0 && g.enq_calls == g_e0 && g.cb_qlen == 0))         /*@C02.discarded-when-recipient-stops-or-is-not-running*/
+V_ENSURES(V_IMP(key == NULL || g_mod->state != M_MOD_RUNNING, g.unref_calls == g_u0 + g_P0 && g.enq_calls == g_e0 && g.cb_qlen == 0))         /*@C02.discarded-when-recipient-stops-or-is-not-running*/ /*@C01.no-handler-for-a-module-that-is-not-running*/
 ;
